@@ -169,6 +169,24 @@ def is_committed(path) -> bool:
     return bool(ub) and ub.get("hdf5_hashsum") is not None
 
 
+def stored_hash_wrong(path):
+    """Independent check of a committed container: the hash recorded in its user block must be '<alg>:' + digest of the
+    bytes after the user block (computed here with hashlib, not with the library). Returns None if fine / uncommitted,
+    else a description."""
+    import hashlib
+
+    ub = parse_ublock(path)
+    if not ub or ub.get("hdf5_hashsum") is None:
+        return None
+    alg, _, hx = str(ub["hdf5_hashsum"]).partition(":")
+    try:
+        h = hashlib.new(alg)
+    except Exception:  # noqa
+        return f"unknown algorithm in {ub['hdf5_hashsum']!r}"
+    h.update(Path(path).read_bytes()[UB_SIZE:])
+    return None if h.hexdigest() == hx else f"{Path(path).name}: recorded {ub['hdf5_hashsum'][:24]}..., payload hashes to {alg}:{h.hexdigest()[:16]}..."
+
+
 def patch_index(path) -> int:
     ub = parse_ublock(path)
     return int(ub["patch_index"]) if ub and "patch_index" in ub else 1 << 30
